@@ -433,7 +433,8 @@ E2E_THOROUGH = [("d", 4, 7), ("d", 5, 8)]
 
 def tasks(tier, seed=0):
     cf = QUICK if tier == "quick" else CONFIGS
-    t = [("c13", "run_contract" if c[0] != "so3" else "run_contract_fixed", c, dict(tier=tier, seed=seed, **(dict(canary=(c == ("d", 3, 6))) if c[0] != "so3" else {}))) for c in cf]
+    fixed = lambda c: c[0] == "so3" or (c[0] == "se2" and c[1] >= 3)      # symbolic t is beyond the normal form there: time grid
+    t = [("c13", "run_contract_fixed" if fixed(c) else "run_contract", c, dict(tier=tier, seed=seed, **({} if fixed(c) else dict(canary=(c == ("d", 3, 6)))))) for c in cf]
     t += [("c13", "run_basis", (K,), dict(tier=tier, seed=seed)) for K in range(1, 7)]
     for c in E2E + (E2E_THOROUGH if tier == "thorough" else []):
         t.append(("c13", "run_smooth", c, dict(tier=tier, seed=seed)))
